@@ -17,6 +17,7 @@ LIB_ASSUMPTIONS = [
     "datetime/timedelta are integers of microseconds; timedelta/int rounds half-to-even as CPython's _divide_and_round; timedelta/timedelta and all floats are mathematical reals",
     "dict/list iteration is in insertion order; containers stored in fields are owned by their object (no aliasing between objects)",
     "logger calls and ErrorLogger wrappers have no effect on program state (exceptions propagate unchanged)",
+    "class families are disjoint: no object is at once a slot (IInput/IOutput), a component, an Info or a grid; otherwise the class hierarchy is open (user subclasses are only constrained by the interface contracts)",
 ]
 
 
